@@ -500,7 +500,7 @@ pub open spec fn feat_help() -> bool { %s }
 def build(features=ALL_FEATURES, modules=None, src_dir=None):
     """-> (mirror_text, linemap, info)"""
     log = []
-    modules = modules or MODULES
+    modules = modules or [m for m in MODULES if os.path.exists(os.path.join(VERIF, 'annot', m + '.rs'))]
     if 'history' not in features:
         modules = [m for m in modules if m != 'history']
     out = []
